@@ -318,7 +318,7 @@ impl Run {
       self.start.elapsed().as_secs_f64()
     );
     if !real.is_empty() {
-      for (v, p) in real.iter().zip(&replay_paths) {
+      for (v, p) in real.iter().zip(&replay_paths).take(8) {
         println!(
           "VIOLATION property={} replay={}  # {} observed={} expected={} case={}",
           self.prop,
@@ -329,8 +329,8 @@ impl Run {
           trunc(&v.case.to_string())
         );
       }
-      if nviol as usize > real.len() {
-        println!("({} further violating states not written out)", nviol as usize - real.len());
+      if nviol as usize > 8 {
+        println!("({} violating states in total; {} replay files written under {})", nviol, real.len(), dir);
       }
       return 1;
     }
@@ -362,8 +362,19 @@ pub struct VAcc {
   pub counts: BTreeMap<String, u64>,
   pub unattr: u64,
 }
+pub fn dump_viol(v: &Viol) {
+  if let Ok(p) = std::env::var("VERIF_DUMP") {
+    use std::io::Write;
+    static LOCK: Mutex<()> = Mutex::new(());
+    let _g = LOCK.lock().unwrap();
+    if let Ok(mut f) = std::fs::OpenOptions::new().create(true).append(true).open(p) {
+      let _ = writeln!(f, "{}", json!({"kind": v.kind, "case": v.case, "observed": v.observed, "expected": v.expected, "finding": v.finding}));
+    }
+  }
+}
 impl VAcc {
   pub fn push(&mut self, v: Viol) {
+    dump_viol(&v);
     match &v.finding {
       Some(f) => {
         let c = self.counts.entry(f.clone()).or_insert(0);
